@@ -121,8 +121,9 @@ def evalConds (sub : Sub) (sc : Script) (x : Ctx) : List Cond → St → R Bool
 
 /-- `Transition._change_state` (flat). -/
 def changeState (sub : Sub) (sc : Script) (cfg : Cfg) (x : Ctx) (t : Trans) (dst : Nat) (s : St) : R Unit :=
-  -- machine.get_state(self.source).exit(event_data)
-  match cfg.state? t.source with
+  -- machine.get_model_state(model).exit(event_data): the state the model is in NOW (a callback of this event
+  -- may have moved the model since the transition was selected; repaired in ba1cc46 — it was `self.source`)
+  match cfg.state? (s.stateOf x.model) with
   | none => .err .valueError s
   | some src =>
     (callbacks sub sc .onExit x src.onExit s).bind fun _ s1 =>
@@ -268,14 +269,18 @@ def addModel (cfg : Cfg) (m : Nat) (s : St) : R Unit :=
     | none => .err .valueError s
     | some _ => .ok () { (s.setState m cfg.initial) with models := s.models ++ [m] }
 
+/-- `_can_trigger`: a transition whose destination is not a registered state counts as impossible
+(`get_state` raises ValueError, which the loop swallows by `continue`) -/
+def destOk (cfg : Cfg) (t : Trans) : Bool :=
+  match t.dest with
+  | some d => (cfg.state? d).isSome
+  | none => true
+
 /-- `Machine._can_trigger` (`may_<event>` / `may_trigger`). -/
 def mayLoop (sub : Sub) (sc : Script) (cfg : Cfg) (x : Ctx) : List Trans → St → R Bool
   | [], s => .ok false s
   | t :: ts, s =>
-    let destOk := match t.dest with
-      | some d => (cfg.state? d).isSome
-      | none => true
-    if !destOk then mayLoop sub sc cfg x ts s else
+    if !destOk cfg t then mayLoop sub sc cfg x ts s else
     let attempt : R Bool :=
       (callbacks sub sc .prepareEvent x cfg.prepareEvent s).bind fun _ s1 =>
       (callbacks sub sc .prepare x t.prepare s1).bind fun _ s2 =>
